@@ -1,3 +1,3 @@
-CONSTANTS Scope = "mid" OneByOne = FALSE Mutant = "none"
+CONSTANTS Scope = "mid" OneByOne = FALSE Mutant = "none" Pick = {}
 SPECIFICATION Spec
 INVARIANT Emit
